@@ -5,7 +5,9 @@
    another key, malformed key usages / constraints / ISD-AS, validity not covered) x TRC (root R1,
    rotated root R2, both) x verification times one second either side of every boundary; (B) TRC
    histories S1 -> S2 with rotated root and grace period placed so that "now" falls into each region
-   of the time line, with chains in the database and at the remote.  In-model: procedures shaped
+   of the time line, with chains in the database and at the remote; single-chain cases are also asked
+   with a query validity 10 days in the past / future (a chain is handed out only if it verifies NOW,
+   the AS certificate included).  In-model: procedures shaped
    like cppki.VerifyChain and activeTRCs/filterVerifiableChains imply the statement's ChainOK /
    ProviderOK.  Every case is a scenario.
 2. harness/cmd/trust -mode chains builds real certificates / TRCs, calls cppki.VerifyChain with the
